@@ -67,6 +67,8 @@ def nextItem (c : Cfg) (s : St) : Option Recv × St :=
   match s.recvs with
   | [] => (none, markEof c s)
   | .fail true :: r => (some (.fail true), markEof c (({ s with recvs := r }).log (.recv (.fail true))))
+  | .sesGone y :: r =>   -- the envelope arrives, and the transport already reports not connected
+    (some (.ses y), ({ s with recvs := r, connected := false }).log (.recv (.ses y)))
   | x :: r => (some x, ({ s with recvs := r }).log (.recv x))
 
 /-- `setStateWLock`'s guard: a state earlier (in `Step` order) than the current one is refused -/
@@ -100,6 +102,7 @@ def recvViaReceiver (c : Cfg) : Nat → St → RecvRes × St
       else (.got x, q.2)
     | some .other => recvViaReceiver c fuel q.2
     | some (.fail _) => (.err, q.2)
+    | some (.sesGone _) => (.err, q.2)             -- not produced by `nextItem`
 
 /-- `channel.receiveSession` -/
 def receiveSession (c : Cfg) (s : St) : RecvRes × St :=
